@@ -10,7 +10,7 @@ from .C03 import REGIONS, OBJVIEW, SB_DECL, sb_req, SB
 
 PROP = 'C08'
 TITLE = 'Struct marshalling follows the sandbox ABI layout and round-trips every field'
-FUNCTIONS = ['tainted_volatile<S>::operator=(const tainted<S>&) (rlbox_struct_support.hpp:271-288)', 'tainted<S>::tainted(const tainted_volatile<S>&) (230-243)',
+FUNCTIONS = ['tainted_volatile<S>::operator=(const tainted<S>&) (rlbox_struct_support.hpp:271-288)', 'tainted_volatile<S>::get_raw_value (UNSAFE_unverified of a struct in sandbox memory)', 'tainted<S>::tainted(const tainted_volatile<S>&) (230-243)',
              'tainted<S>::get_raw_sandbox_value (196-209)', 'detail::convert_type_class<...>::run (294-333)', 'Sbx_vlib_<S><vsbx> (38-62)']
 
 I32 = (-(2 ** 31), 2 ** 31 - 1)
@@ -157,6 +157,32 @@ def load_inst(S, tier):
                 pre=PRE_GHOST + spec_decls(S), pre_defines=OBJVIEW, root_pick=pick, timeout=300, object_bits=12)
 
 
+def unverified_inst(S, tier):
+    """c.UNSAFE_unverified() on a struct in sandbox memory: tainted_volatile<S>::get_raw_value, a fourth macro-generated field loop
+    (plain application struct out of the guest image)"""
+    TV = cs('rlbox::tainted_volatile<rlbox::%s, rlbox::vsbx>' % S)
+    PS = cs('rlbox::%s' % S)
+    W = 'V_WHICH((uintptr_t)$this)'
+    cl = [('wf', '__CPROVER_requires(V_BACKEND_WF)'),
+          ('cell_is_guest_image', '__CPROVER_requires(__CPROVER_r_ok($this, sizeof(struct GUEST_%s)) && V_WHICH((uintptr_t)$this) != -1 && g_expect_example == (uintptr_t)$this)' % S)]
+
+    def post(p, k, j):
+        src = guest_expr('$this', p, j)
+        dst = '$ret' + ''.join('.%s' % x for x in p) + ('[%d]' % j if j is not None else '')
+        tag = 'field_%s%s' % ('_'.join(p), '' if j is None else '_%d' % j)
+        if k == 'ptr':
+            return (tag, '__CPROVER_ensures((%s == 0 ==> (uintptr_t)%s == 0) && ((%s != 0 && (uintptr_t)%s < V_SIZE[%s]) ==> (uintptr_t)%s == V_BASE[%s] + (uintptr_t)%s))' % (src, dst, src, src, W, dst, W, src))
+        return (tag, '__CPROVER_ensures(%s)' % eqv(dst, src, k))
+    cl += leaves_of([], S, post)
+    cl.append(('frame', '__CPROVER_assigns()'))
+    h = REGIONS + ('  struct %s cell; __CPROVER_assume(V_WHICH((uintptr_t)&cell) != -1); g_expect_example = (uintptr_t)&cell; g_noabort = 0;\n'
+                   '  struct %s r = $ROOT(&cell);\n' % (TV, PS))
+    pick = lambda tu, fn: find_func(tu, 'get_raw_value', 'rlbox::tainted_volatile<rlbox::%s, rlbox::vsbx>' % S)
+    return Inst('c08_unverified_%s' % S, 'tainted_volatile<%s, vsbx>& c' % S, 'c.UNSAFE_unverified();', cl, h,
+                leaves=['dynamic_check', 'vsbx.impl_get_unsandboxed_pointer_no_ctx', 'find_sandbox_from_example'], prop=PROP, root_name='get_raw_value', tier=tier,
+                pre=PRE_GHOST + spec_decls(S), pre_defines=OBJVIEW, root_pick=pick, timeout=300, object_bits=12)
+
+
 def byvalue_inst(S, tier):
     """t.UNSAFE_sandboxed(sandbox): the by-value guest image handed to a sandbox function"""
     TT = cs('rlbox::tainted<rlbox::%s, rlbox::vsbx>' % S)
@@ -184,6 +210,8 @@ def units(tier):
     insts = []
     for S in fam:
         insts += [store_inst(S, tier), load_inst(S, tier), byvalue_inst(S, tier)]
+        if S != 'VInner' or tier != 'quick':
+            insts.append(unverified_inst(S, tier))
     return [Unit('C08_structs', insts, includes=('rlbox.hpp', 'vsbx.hpp', 'vstructs.hpp'))]
 
 
